@@ -23,7 +23,7 @@ func run(c *hl.Ctx) error {
 		return nil
 	}
 	r := c.Rand()
-	k := c.Pick(3500, 150000)
+	k := c.Pick(3500, 50000)
 	for i := 0; i < k; i++ {
 		src := semlib.RichProgram(r)
 		gc, why := semlib.GraphCase("rich", src)
@@ -34,7 +34,7 @@ func run(c *hl.Ctx) error {
 		c.Count("graph:rich")
 		c.Emit(gc)
 	}
-	n := c.Pick(1500, 60000)
+	n := c.Pick(1500, 20000)
 	for i := 0; i < n; i++ {
 		g := semlib.New(r, semlib.Opts{MaxDecls: 40, MaxDepth: 4, Underscore: true, QuotedKw: true, ErrSeeds: false, Nulls: true, EdgeMapUnderscore: true})
 		src := g.Program()
@@ -46,7 +46,7 @@ func run(c *hl.Ctx) error {
 		c.Count("graph:core+")
 		c.Emit(gc)
 	}
-	m := c.Pick(1500, 60000)
+	m := c.Pick(1500, 20000)
 	for i := 0; i < m; i++ {
 		g := semlib.New(r, semlib.Opts{MaxDecls: 40, MaxDepth: 4, Underscore: true, QuotedKw: true, ErrSeeds: false, Nulls: true})
 		src := g.Program()
